@@ -579,6 +579,7 @@ class Interp:
         was_done = cc.done
         nret0 = len(cc.returns)
         entry_guards = self.guards()
+        env_entry = dict(cc.env)
         self.exec_block(s.body, cc)
         caught_any = False
         for h in s.handlers:
@@ -598,6 +599,12 @@ class Interp:
             for r in caught:
                 self.raises.remove(r)
             certain = cc.done and not was_done and len(cc.returns) == nret0 and any(r[1] == entry_guards for r in caught)
+            if not certain and not cc.done and len(s.body) == 1 and any(r[1] == entry_guards and r[0] == "AttributeError" for r in caught):
+                # `try: x = self._memo  except AttributeError: ...` on an object whose attributes are known: the one statement of the body
+                # certainly failed, nothing it bound is kept
+                certain = True
+                cc.env.clear()
+                cc.env.update(env_entry)
             if h.name:
                 cc.env[h.name] = Term("exception", [Const(caught[0][0])])
             prev_h = getattr(self, "_handling", None)
